@@ -180,7 +180,7 @@ class _S:
         if isinstance(x, PyList):
             return len(x.items)
         if isinstance(x, SymSeq):
-            return Sym(z3.Length(x.t), 'int')
+            return Sym(x.n, 'int')
         if isinstance(x, Sym) and x.ty == 'bytes':
             return ops.bytes_len(x)
         if isinstance(x, Sym):
